@@ -459,6 +459,7 @@ func run(r *core.Run) int {
 			r.Sample("method-"+out.Results[0].RevocationMethod.String()+"-"+sc.Entry, map[string]any{"scenario": sc.Desc(), "result": sims.CanonString(sims.Canon(out.Results)), "exchanges_cert0": ObservedRequests(sc, out, 0)})
 		}
 	})
+	r.Set("caller_owned_bundles_found_modified", len(sims.ModifiedBundles()))
 	return r.Finish(r.Pick(2000, 50000),
 		core.Require{Counter: "method-OCSP", Why: "method OCSP never seen"},
 		core.Require{Counter: "method-CRL", Why: "method CRL never seen"},
